@@ -473,7 +473,8 @@ class Interp:
             self.path.obligation('C index-in-range:memory read', z3.ULT(off, size))
             return z3.simplify(z3.Select(self.array_of(r), z3.Extract(15, 0, off)))
         if kind == 'args':
-            return z3.BitVecVal(st.args[self.concrete_off(p, 'args') // 4], 32)
+            a = st.args[self.concrete_off(p, 'args') // 4]
+            return a if z3.is_expr(a) else z3.BitVecVal(a, 32)
         if kind == 'table':
             return self.load_table(r[1], p, t)
         if kind == 'alloca':
@@ -556,6 +557,10 @@ class Interp:
             self.set_array(r, z3.Store(self.array_of(r), z3.Extract(15, 0, off), v))
         elif kind == 'alloca':
             st.allocas[r[1]][self.concrete_off(p, 'alloca')] = v
+        elif kind == 'args':
+            # hit/miss counters kept in the handler's argument array (dec_a): concrete when they are plain increments
+            vs = z3.simplify(v)
+            st.args[self.concrete_off(p, 'args') // 4] = vs.as_long() if z3.is_bv_value(vs) else vs
         elif kind == 'field':
             if r[1] == 'out7ffd':
                 st.out7ffd = v
